@@ -50,7 +50,8 @@ def hm_anc_func(delta, E, alpha, nu, contact_point=0, baseline=0):
     return aa*bb + baseline
 
 
-ANC_RETURN = {"E": np.nan, "alpha": np.nan, "other": np.nan}
+ANC_RETURN = {"E": np.nan, "alpha": np.nan, "other": np.nan,
+              "contact_point": np.nan}
 
 
 def hm_anc_compute(fd):
@@ -122,9 +123,10 @@ def build():
                          "Force Baseline"],
         parameter_units=["Pa", "°", "", "m", "N"],
         compute_ancillaries=hm_anc_compute,
-        parameter_anc_keys=["E", "alpha", "other"],
-        parameter_anc_names=["anc E", "anc alpha", "anc other"],
-        parameter_anc_units=["Pa", "°", "m"], **common)
+        parameter_anc_keys=["E", "alpha", "other", "contact_point"],
+        parameter_anc_names=["anc E", "anc alpha", "anc other",
+                             "anc contact point"],
+        parameter_anc_units=["Pa", "°", "m", "m"], **common)
     expr_spec = [("E", dict(value=1e3, min=0, vary=False)),
                  ("R", dict(value=10e-6, vary=False)),
                  ("nu", dict(value=.5, vary=False)),
